@@ -11,7 +11,7 @@ import someip.config as cfg_
 import someip.header as hdr
 import someip.sd as sd
 
-from .. import core, e1
+from .. import canon, core, e1, refcodec
 from ..world import ClientRec, ServerRec, make_sd, timings, RandomSeam, Choice
 
 INF = 0xFFFFFF
@@ -72,6 +72,11 @@ class Sys(e1.TimedSys):
         self.seam.__exit__(None, None, None)
         super().close()
 
+    def key(self):
+        c = canon.Canon(self.loop)
+        c.abstract_incoming = True  # the harness peer always sends the next session id
+        return canon.key_of((c.snapshot(self.roots()), self.key_extra()))
+
     def roots(self):
         r = [self.prot, self.listener, self.model]
         if self.mode == "instance":
@@ -87,6 +92,10 @@ class Sys(e1.TimedSys):
                 acts.append(("stop", k, a))
         for a in self.addrs:
             acts.append(("removeall", a))
+        if self.cfg.get("sequences") and self.mode == "discover":
+            # several entries for one key in ONE SD message, through the whole receive path: the last one counts
+            for seq in ((2, 1, 2), (1, 2, 1), (1, 0, 1), (INF, 1, INF)):
+                acts.append(("addseq", "K1", self.addrs[0], seq))
         if self.cfg.get("reject") and self.mode == "instance":
             acts.append(("reject", not self.model.reject))
         return acts
@@ -105,6 +114,21 @@ class Sys(e1.TimedSys):
                     return  # refused by the listener: not recorded, nothing reported, no timer may remain
                 self.expect.append((now, "new", k, a))
             self.model.deadline[(a, k)] = None if ttl == INF else now + ttl
+        elif act[0] == "addseq":
+            _, k, a, seq = act
+            inst = {"K1": 1, "K2": 2}[k]
+            self.session = getattr(self, "session", 0) + 1
+            ents = [("offer", SID, inst, 1, ttl, 0, (), ()) for ttl in seq]
+            self.prot.datagram_received(refcodec.sd_message(self.session, ents), A[a], True)
+            for ttl in seq:
+                if ttl == 0:
+                    if (a, k) in self.model.deadline:
+                        del self.model.deadline[(a, k)]
+                        self.expect.append((now, "gone", k, a))
+                else:
+                    if (a, k) not in self.model.deadline:
+                        self.expect.append((now, "new", k, a))
+                    self.model.deadline[(a, k)] = None if ttl == INF else now + ttl
         elif act[0] == "stop":
             _, k, a = act
             if self.mode == "discover":
@@ -140,7 +164,7 @@ class Sys(e1.TimedSys):
         r = self.loop._clock_resolution
         due = sorted((d, a, k) for (a, k), d in self.model.deadline.items() if d is not None and d < now + r)
         tie_key = None
-        if act is not None and act[0] == "add" and due:
+        if act is not None and act[0] in ("add", "addseq") and due:
             tie_key = (act[2], act[1])
         if adv == "jump":
             # everything finite expires at its own deadline during the jump
@@ -154,7 +178,8 @@ class Sys(e1.TimedSys):
         for d, a, k in due:
             if tie_key == (a, k) and pos == "pre":
                 # refresh first: the timer is cancelled.  alternative accepted: gone then new.
-                self.alt = [(now, "gone", k, a), (now, "new", k, a)]
+                if act[0] == "add":
+                    self.alt = [(now, "gone", k, a), (now, "new", k, a)]
                 continue
             if act is not None and pos == "pre" and (
                     (act[0] == "stop" and (act[2], act[1]) == (a, k)) or (act[0] == "removeall" and act[1] == a)):
@@ -230,7 +255,7 @@ def configs(ctx):
         # small alphabet, all clock moves (incl. the 0x1000000 s jump), to closure
         out.append((f"{mode}-1key-all-clock-moves",
                     dict(mode=mode, keys=("K1",), addrs=("A1",), ttls=(1, 2, 3, 0xFFFFFE, INF), advs=full_advs,
-                         fine=ctx.pick(2, 3)), CLOSURE))
+                         fine=ctx.pick(2, 3), sequences=True), CLOSURE))
         out.append((f"{mode}-2keys-1addr",
                     dict(mode=mode, keys=("K1", "K2"), addrs=("A1",), ttls=(1, 2, INF), advs=base_advs + ("jump",),
                          fine=ctx.pick(1, 2), reject=True), CLOSURE))
